@@ -265,6 +265,7 @@ func C17(c *core.Ctx) {
 	}
 	c.AddTraces(int64(m))
 	c.Set("env_lattice_points", m)
+	c17Cli(c)
 	c.Set("exhaustive", true)
 	c.Set("rule", "a case is one point of the lattice {explicit name} x {COMPOSE_PROJECT_NAME sources} x {name: per file} x {directory base name}, or of {sources defining a variable} x option order; non-trivial when at least one source beyond the directory name is present")
 }
